@@ -232,8 +232,20 @@ pub fn solve<F: Function>(
     for i in 0.. {
         solver.get_jacobian(&cur, &mut jacobian, &mut result);
 
-        // Early exit if we're done
-        if result.iter().all(|v| *v == 0.0) {
+        // Early exit if we're done: every residual is zero, or is below the
+        // rounding error of the terms that it is made of (estimated to first
+        // order as `sum_j |J_ij * x_j|`).  Below that level, a decrease of the
+        // error is noise; without this test, an unknown whose solution is
+        // exactly zero is approached through ever-smaller steps for tens of
+        // thousands of iterations.  The test does not depend on the scale of
+        // the equations or of the unknowns.
+        let done = (0..tapes.len()).all(|ti| {
+            let scale: f32 = (0..cur.len())
+                .map(|gi| (jacobian[(ti, gi)] * cur[gi]).abs())
+                .sum();
+            result[ti] == 0.0 || result[ti].abs() <= f32::EPSILON * scale
+        });
+        if done {
             break;
         }
 
@@ -269,25 +281,13 @@ pub fn solve<F: Function>(
         //
         // TODO: improve exit criteria?
         let mut changed = false;
-        let mut step_sq = 0f32;
-        let mut cur_sq = 0f32;
         for gi in 0..solver.grad_index.len() {
             let prev = cur[gi];
             cur[gi] -= step[gi];
             changed |= prev != cur[gi];
-            step_sq += step[gi] * step[gi];
-            cur_sq += cur[gi] * cur[gi];
         }
-        // The per-variable test above never fires for an unknown whose
-        // solution is exactly zero: it is approached through ever-smaller
-        // steps, each of which still changes the value.  Also stop when the
-        // whole step is below floating-point resolution relative to the
-        // whole position (the classic `xtol` test).
-        let converged = step_sq.sqrt()
-            <= f32::EPSILON * (cur_sq.sqrt() + f32::EPSILON);
         err_buf[i % err_buf.len()] = err;
         if !changed
-            || converged
             || err == 0.0
             || damping == 0.0
             || err_buf.iter().all(|e| *e == err_buf[0])
